@@ -125,7 +125,7 @@ def main(tier_):
         c = by.get(b["case"], {})
         m = c.get("meta", {})
         v.violation(dict(check="proc-retry", what=b["what"], host=m.get("host"), priv=m.get("priv"), ctor=m.get("ctor"), op=m.get("op"), path=m.get("path"), history=m.get("history")),
-                    "C08: %s -- %s(%s, %r)%s via %s on /proc[%s] as %s" + (" without fsopen [%s]" % m.get("nofsopen") if m.get("nofsopen") else "") + ": outcome %s, %d procfs handles, peak %d descriptors, %d syscalls" % (
+                    ("C08: %s -- %s(%s, %r)%s via %s on /proc[%s] as %s" + (" without fsopen [%s]" % m.get("nofsopen") if m.get("nofsopen") else "") + ": outcome %s, %d procfs handles, peak %d descriptors, %d syscalls") % (
                         b["what"], m.get("op"), m.get("base"), m.get("path"), " after a lookup of a missing entry on the same handle" if m.get("history") else "", m.get("ctor"), m.get("host"), "root" if m.get("priv") else "unprivileged", b["outcome"], b["handles"], b["peak"], b["nsys"]), c)
     rc = v.finish()
     samples = [r for r in recs if r["handles"] > 1][:3] + recs[:2]
